@@ -13,9 +13,35 @@ import (
 	"github.com/btcsuite/btcd/wire/v2"
 )
 
-// mutate derives a hostile byte string from a valid record.
+// mutate derives a hostile byte string from a valid record. The result has no spare capacity, so that a decoder reading
+// past the end of its input (which Go permits up to the capacity of the slice) panics instead of passing unnoticed.
 func mutate(r *mon.Rand, valid []byte) ([]byte, string) {
+	b, how := mutate0(r, valid)
+	out := make([]byte, len(b))
+	copy(out, b)
+	return out, how
+}
+
+// wrappedVLQ is a ten-byte quantity whose value exceeds 64 bits and wraps around to v (0..127).
+func wrappedVLQ(v byte) []byte {
+	return []byte{0x80, 0xfe, 0xfe, 0xfe, 0xfe, 0xfe, 0xfe, 0xfe, 0xff, v & 0x7f}
+}
+
+func mutate0(r *mon.Rand, valid []byte) ([]byte, string) {
 	b := append([]byte{}, valid...)
+	if r.Chance(1, 12) {
+		// a script size (or any other field) written as a quantity that wraps around 2^64 to a small value: the special
+		// script types 0..5 and short raw scripts behind a ten-byte prefix, followed by 0..45 bytes
+		head := cat(refcodec.PutVLQ(genU64(r)), refcodec.PutVLQ(genU64(r)))
+		if r.Chance(1, 4) {
+			head = head[:r.Intn(len(head)+1)]
+		}
+		v := byte(r.Intn(8))
+		if r.Chance(1, 4) {
+			v = byte(r.Intn(128))
+		}
+		return cat(head, wrappedVLQ(v), r.Bytes(r.Intn(46))), "wrapped-vlq"
+	}
 	switch r.Intn(9) {
 	case 0: // truncate
 		if len(b) > 0 {
